@@ -218,7 +218,7 @@ alignment_branch.rule_id = "C04.ALIGNMENT-BRANCH"
 
 # --------------------------------------------------------------------------------------------
 def simple_only_if_equal(repo: Repo) -> RuleRun:
-    r = RuleRun(PROP, "C04.SIMPLE-ONLY-IF-EQUAL", floor=12, what="simpleGrading only if every axis' four gradings are equal")
+    r = RuleRun(PROP, "C04.SIMPLE-ONLY-IF-EQUAL", floor=30, what="simpleGrading only if every axis' four gradings are equal")
     fg = repo.func("items.block.Block.format_grading")
     for simple in ([True, True, True], [False, True, True], [True, False, True], [True, True, False], [False, False, False]):
         blk = Obj("block", cls=repo.cls("items.block.Block"))
@@ -244,22 +244,33 @@ def simple_only_if_equal(repo: Repo) -> RuleRun:
             want_kind, want_parts = "edgeGrading", [f"<format_all:mgr{i}>" for i in range(3)]
         ok = isinstance(res, str) and res.startswith(want_kind) and [p for p in res.replace("(", " ").replace(")", " ").split() if p.startswith("<")] == want_parts
         r.check(ok, fg, f"simple={simple}: {want_kind}", f"Block.format_grading with is_simple={simple} gives '{res}'; expected {want_kind} with {want_parts}: a block whose four edges have different gradings would be written with a single expansion per direction", fg.node, key=f"format:{simple}")
-    # is_simple compares every wire with the first
-    isimple = repo.func("items.wires.manager.WireManagerBase.is_simple")
-    for grads, want in (([5, 5, 5, 5], True), ([5, 5, 5, 6], False), ([5, 6, 5, 5], False), ([6, 5, 5, 5], False), ([5, 5, 6, 5], False)):
-        mgr = Obj("mgr", cls=repo.cls("items.wires.manager.WireManagerBase"))
-        mgr.set("wires", [Obj(f"w{i}", grading=g) for i, g in enumerate(grads)])
-        res = _run(Evaluator(repo=repo, module=isimple.module), isimple, [mgr])
-        r.check(res is want, isimple, f"gradings {grads}: is_simple={res}", f"WireManagerBase.is_simple = {res!r} for wire gradings {grads}; expected {want}", isimple.node, key=f"is_simple:{grads}")
-    # format_single / format_all
-    fsingle = repo.func("items.wires.manager.WireManagerBase.format_single")
-    fall = repo.func("items.wires.manager.WireManagerBase.format_all")
-    mgr = Obj("mgr", cls=repo.cls("items.wires.manager.WireManagerBase"))
-    mgr.set("wires", [Obj(f"w{i}", grading=Obj(f"g{i}", description=f"D{i}")) for i in range(4)])
-    res = _run(Evaluator(repo=repo, module=fall.module), fall, [mgr])
-    r.check(res == "D0 D1 D2 D3", fall, "format_all lists the four wires in order", f"format_all = {res!r}; expected the four wire gradings in AXIS_PAIRS order", fall.node, key="format_all")
-    res = _run(Evaluator(repo=repo, module=fsingle.module), fsingle, [mgr])
-    r.check(res in ("D0", "D1", "D2", "D3"), fsingle, "format_single prints one wire's grading", f"format_single = {res!r}", fsingle.node, key="format_single")
+    # is_simple compares every wire with the first - in BOTH manager classes (an override counts), whatever chops the axis holds
+    base_mgr = repo.cls("items.wires.manager.WireManagerBase")
+    concrete = [c for c in sorted(repo.subclasses(base_mgr), key=lambda c: c.qualname)]
+    r.require(len(concrete) >= 2, "WireChopManager / WirePropagateManager not found")
+    chop_sets = {"no chops": [], "c2c-preserving chops": [Obj("chopA", preserve="c2c_expansion"), Obj("chopB", preserve="c2c_expansion")], "size-preserving chop": [Obj("chopC", preserve="start_size")]}
+    for mcls in concrete:
+        isimple = repo.find_method(mcls, "is_simple")
+        fsingle = repo.find_method(mcls, "format_single")
+        fall = repo.find_method(mcls, "format_all")
+        r.require(isimple is not None and fsingle is not None and fall is not None, f"{mcls.name}: is_simple / format_single / format_all vanished")
+        for cl, chops in chop_sets.items():
+            for grads, want in (([5, 5, 5, 5], True), ([5, 5, 5, 6], False), ([5, 6, 5, 5], False), ([6, 5, 5, 5], False), ([5, 5, 6, 5], False)):
+                mgr = Obj("mgr", cls=mcls)
+                mgr.set("wires", [Obj(f"w{i}", grading=g) for i, g in enumerate(grads)])
+                mgr.set("chops", list(chops))
+                mgr.set("grading", 5)
+                res = _run(Evaluator(repo=repo, module=isimple.module), isimple, [mgr])
+                r.check(res is want, isimple, f"{mcls.name}, {cl}, gradings {grads}: is_simple={res}", f"{mcls.name}.is_simple = {res!r} for wire gradings {grads} ({cl}); expected {want}: the four edges of the direction differ, a single expansion per direction misdescribes three of them", isimple.node, key=f"is_simple:{mcls.name}:{cl}:{grads}")
+        # format_single / format_all print what the WIRES carry (the axis-level grading is solved on the mean length)
+        mgr = Obj("mgr", cls=mcls)
+        mgr.set("wires", [Obj(f"w{i}", grading=Obj(f"g{i}", description=f"D{i}")) for i in range(4)])
+        mgr.set("grading", Obj("axis_grading", description="AXIS"))
+        mgr.set("chops", [])
+        res = _run(Evaluator(repo=repo, module=fall.module), fall, [mgr])
+        r.check(res == "D0 D1 D2 D3", fall, f"{mcls.name}.format_all lists the four wires in order", f"{mcls.name}.format_all = {res!r}; expected the four wire gradings in AXIS_PAIRS order", fall.node, key=f"format_all:{mcls.name}")
+        res = _run(Evaluator(repo=repo, module=fsingle.module), fsingle, [mgr])
+        r.check(res in ("D0", "D1", "D2", "D3"), fsingle, f"{mcls.name}.format_single prints one wire's grading", f"{mcls.name}.format_single = {res!r}: simpleGrading must print the grading the (four equal) wires carry - the axis-level grading is solved on the mean edge length and differs for over-determined chops", fsingle.node, key=f"format_single:{mcls.name}")
     # Grading.__eq__
     geq = repo.func("grading.grading.Grading.__eq__")
 
